@@ -177,10 +177,12 @@ func (x *approvex) runCaseTag(sp *space, idx int64, a, b core.Files, tag string)
 		}
 		return nil
 	case 2:
-		res.Count("tool_panic(see C20)", 1)
+		res.Count("tool_panic", 1)
 		res.Outcome("panic:" + out.Site)
-		if tag != "" {
-			x.violation(sp, idx, a, b, nil, 0, "resume-accepted", tag+"panic:"+out.Site, out.Panic)
+		// the inputs of these spaces are well-formed: the tool cannot bring
+		// the device to the target if it crashes
+		if sp.name != "corpus" || tag != "" { // corpus inputs may be malformed on purpose: C20's matter
+			x.violation(sp, idx, a, b, nil, 0, "no-panic", tag+"panic:"+out.Site, out.Panic)
 		}
 		return nil
 	}
@@ -760,7 +762,6 @@ func (x *approvex) runChain(model string, ctx *core.Ctx) {
 	x.res.Count("chain_max_depth_"+model, int64(depth))
 }
 
-
 // semDiffKind names the kinds of anchors on which two views differ.
 func semDiffKind(a, b *ciscomodel.Dev, sc *ciscomodel.Scope) string {
 	sa, sb := a.Sem(sc), b.Sem(sc)
@@ -835,7 +836,6 @@ func scriptKind(script []string) string {
 	return strings.Join(l, ",")
 }
 
-
 // remarkFlag marks IOS cases whose ACLs contain remark lines (the block
 // logic of the tool treats a remark as member of the preceding block).
 func remarkFlag(ios bool, a, b core.Files) string {
@@ -845,7 +845,6 @@ func remarkFlag(ios bool, a, b core.Files) string {
 	}
 	return ""
 }
-
 
 // rejectSig abstracts the tool's first ERROR line: names and numbers are
 // dropped so that one message form is one signature.
